@@ -27,6 +27,21 @@ Fixpoint decode_view (fuel : nat) (s : sexp) : view :=
       | 5%Z => VOpt (as_opt (decode_view f) (nth_s 1 s))
       | 6%Z => VVec (kids (nth_s 1 s))
       | 7%Z => VStatic (kids (nth_s 1 s))
+      (* Arc<str> stays Arc<str> when erased (its own TypeId); Cow<str> becomes a String *)
+      | 13%Z => VText (if Z.eqb (as_Z (nth_s 1 s)) 0 then 2 else 0) (as_bytes (nth_s 2 s))
+      (* a primitive of type [kind]: one TypeId per type; the case carries what it displays *)
+      | 14%Z => VText (10 + as_nat (nth_s 1 s)) (as_bytes (nth_s 3 s))
+      (* (A,): state and nodes of A, its own TypeId *)
+      | 15%Z => VTuple false [decode_view f (nth_s 1 s)]
+      | 16%Z => VEither (as_nat (nth_s 1 s)) (as_nat (nth_s 2 s)) (decode_view f (nth_s 3 s))
+      (* Result<T, E>: ResultState = Either<T::State, the placeholder of ()>; Ok -> Err and Err -> Ok
+         replace (build, insert_before_this, unmount), Ok -> Ok rebuilds, Err -> Err keeps the placeholder *)
+      | 17%Z => match as_list (nth_s 1 s) with
+                | [] => VEither 100 1 VUnit
+                | x :: _ => VEither 100 0 (decode_view f x)
+                end
+      (* EitherKeepAlive, InertElement: not modelled (cases containing them are judged by the oracle only) *)
+      | 18%Z | 19%Z => VUnit
       | _ => VKeyed (map (fun kv => (as_N (nth_s 0 kv), decode_view f (nth_s 1 kv))) (as_list (nth_s 1 s)))
       end
   end.
